@@ -1,4 +1,5 @@
 import ast
+import warnings
 from typing import Iterator
 
 from .._adapter.adapter import AdapterContext
@@ -8,6 +9,7 @@ from .._change import DictInsert
 from .._global_state import state
 from .._inline_snapshot import UndecidedValue
 from .._sentinels import undefined
+from ..syntax_warnings import InlineSnapshotSyntaxWarning
 from .generic_value import GenericValue
 
 
@@ -26,7 +28,7 @@ class DictValue(GenericValue):
                 old_value = {}
 
             child_node = None
-            if self._ast_node is not None:
+            if self._ast_node is not None and not self._has_star_expression():
                 assert isinstance(self._ast_node, ast.Dict)
                 if index in old_value:
                     pos = list(old_value.keys()).index(index)
@@ -59,9 +61,22 @@ class DictValue(GenericValue):
             + "}"
         )
 
+    def _has_star_expression(self):
+        return isinstance(self._ast_node, ast.Dict) and None in self._ast_node.keys
+
     def _get_changes(self) -> Iterator[Change]:
 
         assert self._old_value is not undefined
+
+        if self._has_star_expression():
+            # the values can not be mapped to the nodes of the dict
+            warnings.warn_explicit(
+                "star-expressions are not supported inside snapshots",
+                filename=self._file._source.filename,
+                lineno=self._ast_node.lineno,
+                category=InlineSnapshotSyntaxWarning,
+            )
+            return
 
         if self._ast_node is None:
             values = [None] * len(self._old_value)
